@@ -885,8 +885,18 @@ Proof.
   - apply hoare_at with (P := fun _ : world => True); [|exact Logic.I].
     apply emits_iterM. intros f _. apply emits_bind_getw. intros w' _.
     destruct (ignored w' (x_pats c) f); [hsteps; exact Logic.I | call_emits add_file_emits].
-  - hsteps. gsplit; [|exact Logic.I]. apply (set_index_delete w a); assumption.
-  - hsteps. gsplit; [|exact Logic.I]. apply (set_index_delete w a); assumption.
+  - destruct (tracked w a).
+    + hsteps. gsplit; [|exact Logic.I]. apply (set_index_delete w a); assumption.
+    + destruct (is_dir (idx_of w) a); [|hsteps].
+      apply hoare_at with (P := fun _ : world => True); [|exact Logic.I].
+      apply emits_iterM. intros q _. apply emits_bind_getw. intros w' Hi'.
+      hsteps. gsplit; [|exact Logic.I]. apply (set_index_delete w' q); assumption.
+  - destruct (tracked w a).
+    + hsteps. gsplit; [|exact Logic.I]. apply (set_index_delete w a); assumption.
+    + destruct (is_dir (idx_of w) a); [|hsteps].
+      apply hoare_at with (P := fun _ : world => True); [|exact Logic.I].
+      apply emits_iterM. intros q _. apply emits_bind_getw. intros w' Hi'.
+      hsteps. gsplit; [|exact Logic.I]. apply (set_index_delete w' q); assumption.
 Qed.
 
 Lemma rm_one_emits : forall p, emits Inv G (rm_one p).
